@@ -67,6 +67,27 @@ def gen(cs, rnd, n, fifo_share=0.3):
                 "runs": [run], "src": "fifo" if use_fifo else "stdin"})
 
 
+def gen_parent_filter(cs, rnd, n):
+    """--split-by with a filter on the record the element came from: equal elements under a record that qualifies and one that does not."""
+    for i in range(n):
+        take, skip = rnd.choice([1, 2, 3]), rnd.choice([0, 0, 1])
+        cfg = PL.mkcfg(split=PL.field("items"), filter=PL.field("f", up=1), take=take, skip=skip)
+        if rnd.random() < 0.4:
+            cfg["selects"] = [{"name": PL.cps("A"), "e": PL.SELF}, {"name": PL.cps("I"), "e": PL.ICTX_INDEX}]
+        el = ("num", "7") if rnd.random() < 0.5 else ("obj", [(PL.cps("k1"), ("num", "7"))])
+        bad = ("obj", [(PL.cps("f"), ("bool", False)), (PL.cps("items"), ("arr", [el] * rnd.choice([1, 2])))])
+        good = ("obj", [(PL.cps("f"), ("bool", True)), (PL.cps("items"), ("arr", [el] * rnd.choice([1, 1, 2])))])
+        vals = [bad] * rnd.choice([1, 2]) + [good] * (skip + take + 3)
+        sep = rnd.choice([b"\n", b" ", b""])
+        data, ends = b"", []
+        for v in vals:
+            data += PL.G.canonical(v)
+            ends.append(len(data))
+            data += sep
+        cs.add({"kind": "stop", "cfg": cfg, "input": [enc(v) for v in vals], "ends": ends, "slack": SLACK_STDIN,
+                "runs": [{"argv": PL.cfg_argv(cfg, rnd), "stdin": hexs(data), "cycle": hexs(PL.G.canonical(good) + sep), "cap": 4 << 20, "timeout_ms": 30000}]})
+
+
 def check(tier, seed, replay=None):
     chk = Check("C14", tier, seed)
     chk.rule = ("a case is one run of a streaming pipeline with --take T (0..5) and --skip S (0..3) on an unbounded input (a generated prefix, then "
@@ -90,6 +111,7 @@ def check(tier, seed, replay=None):
         PC.model_check(chk, ["split"], 2, ["HeadStops", "BreakPropagates", "LimiterLatched"], workers=8)
         PC.expect_dev(chk, "DevSwallowBreak", "split", 2, "BreakPropagates")
         gen(cs, rnd, 200 if quick else 5000)
+        gen_parent_filter(cs, rnd, 12 if quick else 300)
     per, recs = PC.run_and_validate(chk, jvh, cs, "c14", nproc=2 if tier == "quick" else 12)
     chk.notes["sources"] = {"stdin": sum(1 for r in cs.recipes if r.get("src") == "stdin"), "fifo": sum(1 for r in cs.recipes if r.get("src") == "fifo")}
     PC.summarize(chk, cs, per, lambda rc: (rc["cfg"]["take"] >= 1 or rc["cfg"]["skip"] >= 1) and len(rc["runs"][0]["argv"]) >= 2)
